@@ -4,6 +4,7 @@ package userauth
 import (
 	"encoding/binary"
 	"io"
+	"math"
 
 	"github.com/sirupsen/logrus"
 
@@ -33,6 +34,10 @@ func newUserAuthInitMsg(user string) *userAuthInitMsg {
 }
 
 func (msg *userAuthInitMsg) toBytes() []byte {
+	if len(msg.username) > math.MaxUint16 {
+		// the user name length is sent as two bytes
+		return nil
+	}
 	length := headerLen + len(msg.username)
 	s := make([]byte, length)
 	binary.BigEndian.PutUint16(s[usernameLenOffset:usernameOffset], uint16(len(msg.username)))
@@ -44,7 +49,8 @@ func (msg *userAuthInitMsg) toBytes() []byte {
 func RequestAuthorization(ch *tubes.Reliable, username string) bool {
 	mess := newUserAuthInitMsg(username).toBytes()
 	if len(mess) == 0 {
-		logrus.Errorf("C: client username empty userauth")
+		logrus.Errorf("C: user name of %d bytes cannot be sent in a userauth request", len(username))
+		return false
 	}
 	ch.Write(mess)
 	//add timeout
